@@ -176,6 +176,17 @@ func genRelCase(r *Rng) (src string, env *Env, c11 string) {
 			}
 		}
 		a, b = r.Pick(convs)+"(p)", "p"
+		if r.Chance(30) {
+			// the upper half of every unsigned kind and the edges of every signed kind, converted by the TIGHTEST built-in
+			// that holds the value (a conversion registered with the wrong width or signedness shows only there)
+			edge := [][2]any{{int64(200), "uint8"}, {int64(255), "uint8"}, {int64(128), "uint8"}, {int64(40000), "uint16"}, {int64(65535), "uint16"}, {int64(32768), "uint16"},
+				{int64(3000000000), "uint32"}, {int64(4294967295), "uint32"}, {int64(2147483648), "uint32"}, {uint64(1<<63 - 1), "uint64"}, {int64(1 << 62), "uint"},
+				{int64(-128), "int8"}, {int64(127), "int8"}, {int64(-32768), "int16"}, {int64(32767), "int16"}, {int64(-2147483648), "int32"}, {int64(2147483647), "int32"},
+				{uint16(50000), "uint16"}, {uint8(250), "uint8"}, {uint32(4000000000), "uint32"}, {int32(40000), "uint16"}, {uint16(200), "uint8"}}
+			e := edge[r.Intn(len(edge))]
+			env.Vals["p"] = e[0]
+			a, b = e[1].(string)+"(p)", "p"
+		}
 		if r.Bool() {
 			a, b = b, a
 		}
